@@ -33,7 +33,12 @@ var transRE = regexp.MustCompile(`^[0-9a-f]{10}$`)
 // ---- generators ----
 
 func genCommand(t *rapid.T) (text, kind string, valid bool) {
-	switch rapid.IntRange(0, 11).Draw(t, "cmdKind") {
+	switch rapid.IntRange(0, 12).Draw(t, "cmdKind") {
+	case 12: // a complete JSON object with something behind it: not a JSON text, whatever the object says
+		user := rapid.StringMatching(`[a-z]{1,8}`).Draw(t, "tuser")
+		obj := vh.JoinMembers([]vh.Member{{Name: "ifVer", Raw: "7"}, {Name: "username", Raw: vh.JStr(user)}, {Name: "hostname", Raw: vh.JStr("laptop")}, {Name: "sshClientVersion", Raw: vh.JStr("8.1")}}, "")
+		trailer := rapid.SampledFrom([]string{"}", " }", "{}", " x", ",", "]", "null", " null", "\n" + obj, obj, " IFVer=6 req=bob@evil SSHClientVersion=7.9", " req=bob@evil", " HardKey=true", "\x00", "\n\n.", " IFVer=6 SSHClientVersion=7.9"}).Draw(t, "trailer")
+		return obj + trailer, "json-trailer", false
 	case 0, 1, 2, 3: // JSON object
 		user := vh.GenAnyString(t, "user")
 		host := vh.GenAnyString(t, "host")
@@ -420,7 +425,7 @@ func exec(c0 Case) (vh.Outcome, error) {
 	return out, nil
 }
 
-const rule = "SSH_ORIGINAL_COMMAND: JSON objects under the documented wire names (complete, member dropped, member retyped, extra look-alike members such as logName/clientIP, shuffled, with insignificant whitespace around the object), legacy text (version omitted / empty / valid / invalid, requester absent / without '@', optionally among 26..100 further attributes), other JSON values (null, arrays, strings with ' req=a@b '), empty, bytes, legacy noise; LOGNAME empty / unicode / spaces; SSH_CONNECTION v4, v6, zone-suffixed, leading zeros, bracketed, empty, leading space, tab; every other environment variable answers with a decoy (203.0.113.9 ...; SSH_CLIENT, USER = root, ...) that must never show up in the result; argv 0..8 arguments partitioned at random from token lists (valid 3..6 tokens, wrong count, policy misplaced or misspelt, empty tokens). Each Case is evaluated twice. Oracle on success: LogName = LOGNAME != '', ClientIP = first field and valid without zone (net/netip), policy in {NONS,NSOK} = second-last token, handler = last token, version = independently parsed major.minor of the declared text (0.0 only when a legacy message has none), ReqUser/ReqHost = declared values, transaction id 10 hex digits and different between the two evaluations; inputs valid by construction must succeed. Non-trivial: accepted cases and refused cases whose command is a non-object JSON value; distinct by Case hash."
+const rule = "SSH_ORIGINAL_COMMAND: JSON objects under the documented wire names (complete, member dropped, member retyped, extra look-alike members such as logName/clientIP, shuffled, with insignificant whitespace around the object, complete objects followed by a trailer: a brace, a second object, legacy tokens), legacy text (version omitted / empty / valid / invalid, requester absent / without '@', optionally among 26..100 further attributes), other JSON values (null, arrays, strings with ' req=a@b '), empty, bytes, legacy noise; LOGNAME empty / unicode / spaces; SSH_CONNECTION v4, v6, zone-suffixed, leading zeros, bracketed, empty, leading space, tab; every other environment variable answers with a decoy (203.0.113.9 ...; SSH_CLIENT, USER = root, ...) that must never show up in the result; argv 0..8 arguments partitioned at random from token lists (valid 3..6 tokens, wrong count, policy misplaced or misspelt, empty tokens). Each Case is evaluated twice. Oracle on success: LogName = LOGNAME != '', ClientIP = first field and valid without zone (net/netip), policy in {NONS,NSOK} = second-last token, handler = last token, version = independently parsed major.minor of the declared text (0.0 only when a legacy message has none), ReqUser/ReqHost = declared values, transaction id 10 hex digits and different between the two evaluations; inputs valid by construction must succeed. Non-trivial: accepted cases and refused cases whose command is a non-object JSON value; distinct by Case hash."
 
 func TestC14Params(t *testing.T) {
 	vh.Run(t, vh.Spec[Case]{Property: "C14", Name: "TestC14Params", Rule: rule, Gen: gen, Exec: exec})
